@@ -282,6 +282,8 @@ type Run struct {
 	earlyClosed bool
 	diffQueries []qSpec
 	extQueries  []qSpec
+	dupDone     bool
+	dupID       string
 	refAnswers  map[int]*answer
 	observations []Violation // non-fatal observations matched against known findings by the driver
 	expectPlan  *mergeplan.MergePlan
@@ -747,6 +749,15 @@ func (r *Run) genBatch(c *client) *BatchSpec {
 			used[id] = true
 			b.Ops = append(b.Ops, mk(OpUpdate, id, len(b.Ops)))
 		}
+		return b
+	}
+	if r.p.DupProbe && !r.dupDone && b.N >= 2 && t.Chance(1, 3, "op.dup") {
+		// the dedicated known-finding probe: the same id in two operations
+		// of one batch (never generated anywhere else)
+		r.dupDone = true
+		id := r.idspace[t.Draw(len(r.idspace), "op.id")]
+		b.Ops = []BatchOp{mk(OpUpdate, id, 0), mk(OpUpdate, id, 1)}
+		r.dupID = id
 		return b
 	}
 	if t.Chance(3, 10, "op.single") {
@@ -1453,6 +1464,26 @@ func (r *Run) quiescentChecks() {
 		r.probe("ambiguous-final-explanation")
 	}
 	r.finalModel = r.chain.Current()
+	if r.dupID != "" {
+		// an id written only through Update must have exactly one live document
+		onlyUpdates, n := true, 0
+		for _, b := range r.batches {
+			for _, op := range b.Ops {
+				if op.ID == r.dupID && op.Kind == OpInsert {
+					onlyUpdates = false
+				}
+			}
+		}
+		for _, d := range r.finalModel.Live {
+			if d.ID == r.dupID {
+				n++
+			}
+		}
+		if onlyUpdates && n > 1 {
+			r.observe("dup-id-in-batch", fmt.Sprintf("id %s was written only through Update, but a batch that named it in two Update operations left %d live documents with that id", r.dupID, n))
+		}
+		r.stats.Probes["dup-id-batches"]++
+	}
 	if !r.earlyClosed {
 		r.quiescentPlanCheck()
 		if r.failed() {
